@@ -2,8 +2,8 @@ import Drv.RecvCommon
 import OpcuaModel.Model.RecvRaw
 /-
   Driver for C13:
-    raw <rcvBuf> <maxChunkCount> <maxMessageSize> <secure 0|1> <opening 0|1> <chan,chan,…|-> <frame>…
-      frame = <hex>[/o=<ct>:<seq>:<req>:<hex>][/c=certErr|notRsa|policyErr|ok]
+    raw <rcvBuf> <maxChunkCount> <maxMessageSize> <secure 0|1|2 (2 = SignAndEncrypt)> <opening 0|1> <chan,chan,…|-> <frame>…
+      frame = <hex>[/o=<hex of the plaintext the frame opens to>][/c=certErr|notRsa|policyErr|ok]
       → one outcome per frame until a panic or EOF: panic:conn | panic:hdr | eof | err:<class> | <result as in recv>,
         then held=<entries>/<chunks>/<bytes>
     recv … as in C12 (retained memory of chunk streams)
@@ -18,7 +18,7 @@ def parseFrame (s : String) : Option Frame :=
     let mut f : Frame := { raw := raw }
     for o in opts do
       if o.startsWith "o=" then
-        let c ← parseChunk (o.drop 2).toString
+        let c ← fromHex (o.drop 2).toString
         f := { f with opens := some c }
       else if o == "c=certErr" then f := { f with cert := .certErr }
       else if o == "c=notRsa" then f := { f with cert := .notRsa }
@@ -54,7 +54,7 @@ def handle : List String → String
     match rb.toNat?, mc.toNat?, mm.toNat?, parseChans chans, parseFrames fs with
     | some rb, some mc, some mm, some chans, some fs =>
       let lim : Cfg := ⟨mc, mm, Gen.RecvFacts.chunkLimitZeroUnlimited, Gen.RecvFacts.sizeLimitZeroUnlimited⟩
-      let cfg : RawCfg := ⟨rb, lim, sec == "1"⟩
+      let cfg : RawCfg := ⟨rb, lim, sec == "1" || sec == "2", sec == "2"⟩
       let st : RawSt := ⟨[], opn == "1", chans, false⟩
       let outs := runRaw cfg st fs
       " ".intercalate (outs.map rawOutText ++ [heldText (runRawFinal cfg st fs).bufs])
